@@ -15,6 +15,11 @@ import (
 
 type custom struct{ A int }
 
+type named struct{ name string }
+
+// String dereferences its receiver: calling it on a nil *named panics (fmt catches that).
+func (n *named) String() string { return n.name }
+
 type H struct {
 	kind int
 	msg  string
@@ -43,6 +48,9 @@ func (h *H) Boom(a int) (int, error) {
 		return 0, errors.New(e.Error())
 	case 7:
 		panic(nil)
+	case 8:
+		var n *named
+		panic(n) // a payload whose String method itself panics
 	}
 	return 0, nil
 }
@@ -75,7 +83,7 @@ func call(srv *jsonrpc.RPCServer, method string, id interface{}, x int64) (reply
 
 // HarnessPanicHTTP: every panic payload kind, request/notification; then a healthy call.
 func HarnessPanicHTTP() {
-	h := &H{kind: verif.Choice("kind", 8), msg: verif.String("msg", 3)}
+	h := &H{kind: verif.Choice("kind", 9), msg: verif.String("msg", 3)}
 	srv := jsonrpc.NewServer()
 	srv.Register("H", h)
 	x := verif.Int("x")
@@ -146,7 +154,7 @@ func (h *WH) Sub(ctx context.Context) (<-chan int, error) {
 // HarnessPanicWS: over WebSocket, with a sibling call and a sibling stream in
 // flight, a panicking handler fails only its own call.
 func HarnessPanicWS() {
-	h := &WH{H: H{kind: verif.Choice("kind", 8), msg: verif.String("msg", 2)}, release: make(chan struct{})}
+	h := &WH{H: H{kind: verif.Choice("kind", 9), msg: verif.String("msg", 2)}, release: make(chan struct{})}
 	srv := jsonrpc.NewServer()
 	srv.Register("H", h)
 	url, stop := verif.ServeWS(srv)
